@@ -42,136 +42,185 @@ typedef struct {
     int bcount;
 } vin_t;
 
-/* Copies of the inputs for the stubs, as plain arrays: the stubs never dereference a pointer (every dereference in an
- * assertion costs CBMC a fresh failure symbol, found by a linear name search: quadratic symex time). */
+/* Copies of the inputs as plain arrays: the stubs never dereference a pointer (every dereference inside an assertion
+ * costs CBMC a fresh failure symbol found by a linear name search, i.e. quadratic symex time). */
 static const unsigned char *g14_pdata[PMAX];   /* payload address of the pieces stored at entry */
 static size_t g14_plen[PMAX];
 static unsigned char g14_c[N];                  /* == the chunk */
 static unsigned char g14_b[BL];                 /* == the delimiter string the parser was given */
 
+/* Events: the stubs classify their pointer argument (pointer predicates only) and feed the integer event into the
+ * hand-out automaton c14_event, which carries a few scalars and asserts the discipline online. */
+#define EV_DATA 0
+#define EV_BOUNDARY 1
+#define EV_STORE 2
+#define SRC_CHUNK 0                             /* source object of a range: the chunk, entry piece i (1+i), anything else */
+#define SRC_OTHER 255
+static void c14_event(unsigned kind, unsigned src, size_t off, size_t len, int is_line);
+#ifdef C14_NO_PIECES
+#define NP_MAX 0                                /* the call starts without stored pieces: compile-time fact for symex */
+#else
+#define NP_MAX PMAX
+#endif
+
 /* ---- the set-aside store (parser->boundary_pieces): MODEL of the string builder.  htp_multipart.c is compiled with
  *      bstr_builder_append_mem/_size/_clear and htp_list_array_size/_get renamed to the c14_* functions below
- *      (unit key `pre`).  The model keeps the pieces in order in heap objects of EXACTLY sizeof(bstr)+len bytes
- *      (so that an index past a piece is an out-of-bounds read), copies like bstr_dup_mem, may fail like it. ---- */
+ *      (unit key `pre`).  The model keeps the pieces in order; the first piece stored at entry (the only one the parser
+ *      indexes itself, htp_multipart.c:1029/1032) is a heap object of EXACTLY sizeof(bstr)+len bytes. ---- */
 static bstr *c14_slot[PMAX + 1];
 static size_t c14_nslots;
 static bstr_builder_t c14_bb;
 static htp_list_t c14_bbl;
-#define C14_IS_BB(bb) ((bb) == &c14_bb)
 
-static bstr *c14_piece_alloc(const unsigned char *data, size_t len, size_t maxlen) {
+static bstr *c14_piece_alloc(const unsigned char *data, size_t len, size_t maxlen, int exact) {
     bstr *b = NULL;
-    /* enumerate the length so that object size and copy are constant (HOWTO 4: symbolic-size objects + writes) */
-    for (size_t k = 0; k <= maxlen; k++) if (len == k) {
-        b = malloc(sizeof (bstr) + k);
-        if (b != NULL) { b->len = k; b->size = k; b->realptr = NULL; if (k > 0) memcpy((unsigned char *) b + sizeof (bstr), data, k); }
+    if (exact) {
+        /* enumerate the length so that object size and copy are constant (HOWTO 4: symbolic-size objects + writes) */
+        for (size_t k = 0; k <= maxlen; k++) if (len == k) {
+            b = malloc(sizeof (bstr) + k);
+            if (b != NULL && k > 0) memcpy((unsigned char *) b + sizeof (bstr), data, k);
+        }
+    } else {
+        b = malloc(sizeof (bstr) + maxlen);
+        if (b != NULL) for (size_t k = 0; k < maxlen; k++) if (k < len) ((unsigned char *) b + sizeof (bstr))[k] = data[k];
     }
+    if (b != NULL) { b->len = len; b->size = len; b->realptr = NULL; }
     return b;
 }
 
-size_t c14_bb_size(const bstr_builder_t *bb) { VASSERT(C14_IS_BB(bb), "only the boundary_pieces builder is used"); return c14_nslots; }
-size_t c14_list_size(const htp_list_t *l) { VASSERT(l == &c14_bbl, "only the boundary_pieces list is read"); return c14_nslots; }
-void *c14_list_get(const htp_list_t *l, size_t idx) {
-    VASSERT(l == &c14_bbl, "only the boundary_pieces list is read");
-    if (idx >= c14_nslots) return NULL;
-    for (size_t i = 0; i < PMAX + 1; i++) if (i == idx) return c14_slot[i];
-    return NULL;
-}
+/* The piece set aside by THIS call is kept apart (c14_new) and joins the slots after the call: the builder is never
+ * read again once the tail of the chunk has been stored (asserted), and c14_nslots stays a constant for symex when the
+ * call starts without pieces. */
+static bstr *c14_new;
+#define C14_NO_READ_AFTER_STORE() VASSERT(g14_app_n == 0, "the set-aside store is not read again after the tail of the chunk has been stored")
+size_t c14_bb_size(const bstr_builder_t *bb) { C14_NO_READ_AFTER_STORE(); return c14_nslots; }
+size_t c14_list_size(const htp_list_t *l) { C14_NO_READ_AFTER_STORE(); return c14_nslots; }
+void *c14_list_get(const htp_list_t *l, size_t idx) { C14_NO_READ_AFTER_STORE(); return idx < c14_nslots ? c14_slot[idx] : NULL; }
 void c14_bb_clear(bstr_builder_t *bb) {
-    VASSERT(C14_IS_BB(bb), "only the boundary_pieces builder is used");
+    C14_NO_READ_AFTER_STORE();
 #ifdef VNATIVE
     for (size_t i = 0; i < c14_nslots; i++) free(c14_slot[i]);
 #endif
     c14_nslots = 0;
 }
+#define C14_LOG(k, src, o, l, ln) c14_event((k), (src), (o), (l), (ln))
+/* which object does d point into, and where (pointer predicates only, no dereference) */
+#define C14_CLASSIFY(d, src, off) do { (src) = SRC_OTHER; (off) = 0; \
+    if (C14_SAME((d), g14_chunk, N)) { (src) = SRC_CHUNK; (off) = (size_t) ((d) - g14_chunk); } \
+    else for (size_t i_ = 0; i_ < NP_MAX; i_++) if (i_ < g14_np0 && C14_SAME((d), g14_pdata[i_], g14_plen[i_])) { (src) = (unsigned char) (1 + i_); (off) = (size_t) ((d) - g14_pdata[i_]); } \
+  } while (0)
+#define C14_MODE_HAVOC(p) do { (p)->current_part_mode = ((g14_modeseq >> (g14_calls & 31u)) & 1u) ? MODE_DATA : MODE_LINE; g14_calls++; } while (0)
+
 htp_status_t c14_bb_append_mem(bstr_builder_t *bb, const void *data, size_t len) {
     const unsigned char *d = data;
-    VASSERT(C14_IS_BB(bb), "only the boundary_pieces builder is used");
-    VASSERT(C14_SAME(d, g14_chunk, N), "set-aside data comes from the current chunk");
-    size_t off = (size_t) (d - g14_chunk);
-    VASSERT(off <= N && len <= N - off, "set-aside range lies inside the chunk");
-    VASSERT(off >= g14_hi, "set-aside range does not repeat bytes already handed out");
-    VASSERT(off == g14_hi || g14_gap_ok, "no chunk byte is skipped in front of the set-aside range (except a delimiter line)");
-    VASSERT(off + len == N, "the set-aside range extends to the end of the chunk");
-    g14_hi = off + len; g14_gap_ok = 0; g14_started = 1; g14_app_n++;
-    VASSERT(c14_nslots <= PMAX, "the builder model has room (WF bounds the number of pieces)");
-    if (c14_nslots > PMAX) return HTP_ERROR;
-    bstr *b = c14_piece_alloc(d, len, N);
+    unsigned char src; size_t off;
+    C14_CLASSIFY(d, src, off);
+    C14_LOG(EV_STORE, src, off, len, 0);
+    g14_app_n++;
+    if (bb != &c14_bb || g14_app_n > 1 || len > N) return HTP_ERROR;           /* flagged by the replay */
+    bstr *b = c14_piece_alloc(d, len, N, 0);
 #ifdef KNOWN_F_C14_APPEND_FAIL
     /* F-C14-APPEND (C18): the parser ignores a failed set-aside copy (htp_multipart.c:1278); the bytes are lost and
      * boundary_candidate_pos then indexes past a LATER piece (native: notes/c14.md).  Excluded: allocation failure here. */
     VASSUME(b != NULL);
 #endif
     if (b == NULL) return HTP_ERROR;
-    for (size_t i = 0; i < PMAX + 1; i++) if (i == c14_nslots) c14_slot[i] = b;
-    c14_nslots++;
+    c14_new = b;
     return HTP_OK;
 }
 
 /* ---- the part layer: parser->handle_data / parser->handle_boundary ---- */
 static int c14_handle_data(htp_mpartp_t *p, const unsigned char *d, size_t len, int is_line) {
-    VASSERT(len <= N + PMAX * PLEN + 1, "handle_data length did not wrap around");
     if (len == 0) return HTP_OK;               /* the real htp_mpartp_handle_data ignores empty ranges */
-    VASSERT(C14_ROK(d, len), "handle_data range is readable");
-    g14_nd++;
-    if (C14_SAME(d, g14_chunk, N)) {
-        size_t off = (size_t) (d - g14_chunk);
-        VASSERT(off <= N && len <= N - off, "handle_data range lies inside the chunk");
-        VASSERT(off >= g14_hi, "chunk bytes are handed out in order and at most once");
-        VASSERT(off == g14_hi || g14_gap_ok, "no chunk byte is skipped (except a delimiter line)");
-        if (off > g14_hi) VASSERT(g14_c[off - 1] == '\n', "data resumes right after the line feed that ends the delimiter line");
-        VASSERT(g14_pi == g14_np0 || g14_pc == 0 || g14_nb > 0, "stored pieces are replayed before newer chunk bytes");
-        g14_hi = off + len; g14_gap_ok = 0; g14_started = 1;
-    } else if (g14_pi < g14_np0 && C14_SAME(d, g14_pdata[g14_pi < PMAX ? g14_pi : 0], g14_plen[g14_pi < PMAX ? g14_pi : 0])) {
-        size_t off = (size_t) (d - g14_pdata[g14_pi]);
-        VASSERT(off == g14_po, "stored pieces are replayed contiguously, in order");
-        VASSERT(len <= g14_plen[g14_pi] - g14_po, "handle_data range lies inside the stored piece");
-        VASSERT(!g14_started, "stored pieces are replayed before any byte of the chunk");
-        g14_pc += len; g14_po += len;
-        if (g14_po == g14_plen[g14_pi]) { g14_pi++; g14_po = 0; }
-    } else {
-        VASSERT(len == 1 && C14_IS_CR(d) && !is_line, "any other range is the one-byte CR literal");
-        VASSERT(g14_cr0 == 1 && g14_crn == 0, "the CR literal is handed out only for a CR that was set aside, once");
-        VASSERT(!g14_started && g14_pc == 0, "the set-aside CR precedes the stored pieces and the chunk");
-        g14_crn++;
-    }
-    p->current_part_mode = ((g14_modeseq >> (g14_calls & 31u)) & 1u) ? MODE_DATA : MODE_LINE; g14_calls++;
+    unsigned char src; size_t off;
+    C14_CLASSIFY(d, src, off);
+    if (src == SRC_OTHER) VASSERT(len == 1 && C14_IS_CR(d) && C14_ROK(d, 1), "a range outside the chunk and the stored pieces is the one-byte CR literal");
+    C14_LOG(EV_DATA, src, off, len, is_line);
+    if (src == SRC_CHUNK && off <= N && len <= N - off) g14_hi = off + len;   /* running end of the chunk bytes handed out */
+    C14_MODE_HAVOC(p);
     return HTP_OK;
 }
 
 static int c14_handle_boundary(htp_mpartp_t *p) {
     size_t end;
     if (g14_carried && g14_nb == 0) {
-        /* the candidate carried over from earlier calls is completed by chunk[0 .. BL-bmp) (checked by ref_candidate) */
-        VASSERT(g14_hi == 0, "nothing of the chunk was handed out before the carried delimiter completed");
+        /* the candidate carried over from earlier calls is completed by chunk[0 .. BL-bmp) (decided by ref_candidate) */
         end = BL - g14_bmp0;
     } else {
-        /* the whole delimiter lies in this chunk, right after the bytes accounted for so far:
-         * line end (CRLF or LF), then "--" boundary, byte for byte */
+        /* the whole delimiter lies in this chunk, right behind the bytes handed out so far:
+         * line end (CRLF or LF), then "--" boundary (contents checked by the replay) */
         size_t q = g14_hi;
-        VASSERT(!g14_gap_ok, "two delimiters are separated by the end of the first one's line");
         if (q + 1 < N && g14_c[q] == '\r' && g14_c[q + 1] == '\n') q += 2;
         else if (q < N && g14_c[q] == '\n') q += 1;
-        else VASSERT(0, "a delimiter inside the chunk is introduced by a line end");
-        VASSERT(q <= N && BL - 2 <= N - q, "the delimiter lies inside the chunk");
-        for (size_t j = 0; j + 2 < BL; j++)
-            if (q + j < N) VASSERT(g14_c[q + j] == g14_b[2 + j], "the bytes classified as delimiter are the delimiter");
+        else q = N + 1;                         /* flagged by the replay */
         end = q + (BL - 2);
     }
-    g14_hi = end; g14_gap_ok = 1; g14_started = 1; g14_nb++;
+    C14_LOG(EV_BOUNDARY, SRC_OTHER, 0, end, 0);
+    g14_hi = end <= N ? end : N; g14_nb++;
 #ifdef KNOWN_F_C14_OVERREAD
     /* F-C14-OVERREAD (C01): a delimiter completed by the LAST byte of the chunk: `goto STATE_SWITCH` enters
      * STATE_BOUNDARY_IS_LAST2 without re-testing pos < len and reads data[len] (htp_multipart.c:1287). */
-    VASSUME(end < N);
+    VASSUME(end != N);
 #endif
-    p->current_part_mode = ((g14_modeseq >> (g14_calls & 31u)) & 1u) ? MODE_DATA : MODE_LINE; g14_calls++;
+    C14_MODE_HAVOC(p);
     return HTP_OK;
 }
 
-/* WF of the stored pieces in STATE_BOUNDARY, checked on the real builder after the call */
+/* The hand-out automaton.
+ *   hi       chunk bytes [0,hi) are accounted for          gap_ok   a delimiter line is being swallowed
+ *   pi,po    next stored piece / offset expected            pc       bytes replayed from the stored pieces
+ *   crn      releases of the set-aside CR                   started  some chunk byte has been accounted for */
+static size_t r14_hi, r14_pi, r14_po, r14_pc, r14_crn, r14_nb, r14_nd, r14_app;
+static _Bool r14_gap_ok, r14_started;
+static void c14_event_init(unsigned state0) {
+    r14_hi = 0; r14_pi = 0; r14_po = 0; r14_pc = 0; r14_crn = 0; r14_nb = 0; r14_nd = 0; r14_app = 0; r14_started = 0;
+    r14_gap_ok = (state0 >= STATE_BOUNDARY_IS_LAST1);
+}
+static void c14_event(unsigned kind, unsigned src, size_t off, size_t len, int is_line) {
+    if (kind == EV_BOUNDARY) {
+        size_t end = len;
+        if (g14_carried && r14_nb == 0) {
+            VASSERT(r14_hi == 0 && !r14_started, "nothing of the chunk is handed out before the carried delimiter completes");
+        } else {
+            VASSERT(!r14_gap_ok, "two delimiters are separated by the end of the first one's line");
+            VASSERT(end <= N && end >= r14_hi + (BL - 2) + 1 && end <= r14_hi + (BL - 2) + 2, "a delimiter inside the chunk is introduced by a line end (LF or CRLF) right behind the data");
+            if (end <= N && end >= BL - 2)
+                for (size_t j = 0; j + 2 < BL; j++)
+                    VASSERT(g14_c[end - (BL - 2) + j] == g14_b[2 + j], "the bytes classified as delimiter are the delimiter");
+        }
+        r14_hi = end <= N ? end : N; r14_gap_ok = 1; r14_started = 1; r14_nb++;
+        return;
+    }
+    VASSERT(len <= N + PMAX * PLEN + 1, "handed-out length did not wrap around");
+    if (kind == EV_STORE || src == SRC_CHUNK) {
+        VASSERT(src == SRC_CHUNK && off <= N && len <= N - off, "the range lies inside the chunk");
+        VASSERT(off >= r14_hi, "chunk bytes are handed out in order and at most once");
+        VASSERT(off == r14_hi || r14_gap_ok, "no chunk byte is skipped (except a delimiter line)");
+        if (off > r14_hi && off <= N) VASSERT(g14_c[off - 1] == '\n', "data resumes right after the line feed that ends the delimiter line");
+        VASSERT(r14_pi == g14_np0 || r14_pc == 0 || r14_nb > 0, "stored pieces are replayed before newer chunk bytes");
+        if (kind == EV_STORE) { VASSERT(off + len == N, "the set-aside range extends to the end of the chunk"); r14_app++; }
+        else r14_nd++;
+        r14_hi = off + len; r14_gap_ok = 0; r14_started = 1;
+    } else if (src != SRC_OTHER) {
+        VASSERT(src == 1 + r14_pi && off == r14_po, "stored pieces are replayed contiguously, in order");
+        size_t pl = 0;
+        for (size_t i = 0; i < NP_MAX; i++) if (i + 1 == src) pl = g14_plen[i];
+        VASSERT(off <= pl && len <= pl - off, "the range lies inside the stored piece");
+        VASSERT(!r14_started, "stored pieces are replayed before any byte of the chunk");
+        r14_pc += len; r14_po = off + len; r14_nd++;
+        if (r14_po == pl) { r14_pi = src; r14_po = 0; }
+    } else {
+        VASSERT(len == 1 && !is_line, "any other range is the one-byte CR literal, not a line");
+        VASSERT(g14_cr0 == 1 && r14_crn == 0, "the CR literal is handed out only for a CR that was set aside, once");
+        VASSERT(!r14_started && r14_pc == 0, "the set-aside CR precedes the stored pieces and the chunk");
+        r14_crn++; r14_nd++;
+    }
+}
+
+/* WF of the stored pieces in STATE_BOUNDARY, checked on the builder model after the call */
 static void c14_check_pieces(htp_mpartp_t *p) {
     size_t np = c14_nslots;
-    size_t t = 0, sum = 0;
+    size_t t = 0;
     VASSERT(np <= PMAX, "WF': at most |delimiter|-2 pieces are stored");
     for (size_t i = 0; i < PMAX + 1; i++) if (i < np) {
         bstr *b = c14_slot[i];
@@ -184,7 +233,6 @@ static void c14_check_pieces(htp_mpartp_t *p) {
             VASSERT(2 + t < BL && ptr[j] == g14_b[(2 + t) < BL ? 2 + t : 0], "WF': the stored bytes after the candidate position are the matched delimiter prefix");
             t++;
         }
-        sum += l;
     }
     VASSERT(t == p->boundary_match_pos - 2, "WF': boundary_match_pos counts exactly the stored matched bytes");
     VASSERT(np > 0 || (p->boundary_candidate_pos == 0 && p->boundary_match_pos == 2) , "WF': nothing stored only in the initial state");
@@ -202,6 +250,12 @@ static void c14_parse_harness(vin_t in) {
     VASSUME(in.bcount >= 0 && in.bcount <= INT_MAX - N);             /* int boundary_count++ (2^31 delimiters) */
     VASSUME(in.bmp >= 2 && in.bmp <= BL);
     size_t sum0 = 0;
+#ifdef C14_NO_PIECES
+    VASSUME(in.np == 0);
+#endif
+#ifdef C14_ONLY_PIECES
+    VASSUME(in.state == STATE_BOUNDARY && in.np >= 1);
+#endif
     if (in.state != STATE_BOUNDARY) {
         VASSUME(in.np == 0);
         VASSUME(in.cr == 0 || in.state == STATE_DATA);
@@ -233,23 +287,23 @@ static void c14_parse_harness(vin_t in) {
     VASSUME(chunk != NULL && bnd != NULL);
     memcpy(chunk, in.chunk, N);
     memcpy(bnd, in.bnd, BL); bnd[BL] = 0;
+    memset(p, 0, sizeof (*p));
     p->multipart.boundary = bnd; p->multipart.boundary_len = BL;
     p->multipart.boundary_count = in.bcount; p->multipart.flags = in.flags;
     p->handle_data = c14_handle_data; p->handle_boundary = c14_handle_boundary;
     p->parser_state = in.state; p->boundary_match_pos = in.bmp; p->boundary_candidate_pos = in.bcp;
     p->cr_aside = (int) in.cr; p->current_part_mode = in.mode ? MODE_DATA : MODE_LINE;
     p->current_part = NULL;
-    c14_bb.pieces = &c14_bbl; p->boundary_pieces = &c14_bb; c14_nslots = 0;
-    for (size_t i = 0; i < PMAX; i++) if (i < in.np) {
-        bstr *b = c14_piece_alloc(in.pb[i], in.pl[i], PLEN);
+    c14_bb.pieces = &c14_bbl; p->boundary_pieces = &c14_bb; c14_nslots = 0; c14_new = NULL;
+    for (size_t i = 0; i < NP_MAX; i++) if (i < in.np) {
+        bstr *b = c14_piece_alloc(in.pb[i], in.pl[i], PLEN, i == 0);
         VASSUME(b != NULL);
         c14_slot[i] = b; c14_nslots = i + 1;
         g14_pdata[i] = (const unsigned char *) b + sizeof (bstr); g14_plen[i] = in.pl[i];
     }
     /* ---------- ghost log ---------- */
     g14_chunk = chunk; memcpy(g14_c, in.chunk, N); memcpy(g14_b, in.bnd, BL);
-    g14_hi = 0; g14_nb = 0; g14_nd = 0; g14_crn = 0; g14_pc = 0; g14_pi = 0; g14_po = 0; g14_started = 0; g14_app_n = 0;
-    g14_gap_ok = (in.state >= STATE_BOUNDARY_IS_LAST1);
+    g14_hi = 0; g14_nb = 0; g14_app_n = 0; c14_event_init(in.state);
     g14_bmp0 = in.bmp; g14_cr0 = (int) in.cr; g14_np0 = in.np; g14_modeseq = in.modeseq; g14_calls = 0;
     int outcome = (in.state == STATE_BOUNDARY) ? ref_candidate(in.bnd, BL, in.bmp, in.chunk, N) : -1;
     g14_carried = (outcome == REF_CAND_MATCH);
@@ -257,6 +311,7 @@ static void c14_parse_harness(vin_t in) {
     /* ---------- one call ---------- */
     htp_status_t rc = htp_mpartp_parse(p, chunk, N);
 
+    if (c14_new != NULL && c14_nslots <= PMAX) { c14_slot[c14_nslots] = c14_new; c14_nslots++; }   /* the piece stored by this call */
     /* ---------- WF again ---------- */
     VASSERT(rc == HTP_OK, "parse returns HTP_OK");
     VASSERT(p->parser_state >= STATE_DATA && p->parser_state <= STATE_BOUNDARY_EAT_LWS_CR, "WF': parser_state in range");
@@ -272,39 +327,43 @@ static void c14_parse_harness(vin_t in) {
         c14_check_pieces(p);
     }
     /* ---------- byte conservation for the chunk ---------- */
-    VASSERT(g14_hi <= N, "accounted chunk bytes <= chunk length");
+    VASSERT(r14_hi <= N, "accounted chunk bytes <= chunk length");
     if (p->parser_state == STATE_DATA)
-        VASSERT(g14_hi + (size_t) p->cr_aside == N || (g14_gap_ok && p->cr_aside == 0 && in.chunk[N - 1] == '\n'),
-                "conservation (data state): every chunk byte was handed out, or is the set-aside CR, or belongs to a delimiter line");
+        VASSERT(r14_hi + (size_t) p->cr_aside == N ||
+                (r14_gap_ok && (p->cr_aside == 0 || p->cr_aside == 1) && N > (size_t) p->cr_aside && in.chunk[N - 1 - (p->cr_aside == 1)] == '\n'),
+                "conservation (data state): every chunk byte was handed out, or is the set-aside CR, or belongs to a delimiter line that ends right in front");
     else if (p->parser_state == STATE_BOUNDARY)
-        VASSERT(g14_app_n == 1 && g14_hi == N, "conservation (candidate state): the unhanded tail of the chunk was stored, once");
+        VASSERT(r14_app == 1 && r14_hi == N, "conservation (candidate state): the unhanded tail of the chunk was stored, once");
     else
-        VASSERT(g14_gap_ok, "conservation (delimiter line): the unhanded tail belongs to a delimiter line");
-    VASSERT(g14_app_n <= 1 && (g14_app_n == 0 || p->parser_state == STATE_BOUNDARY), "set-aside happens only when the chunk ends inside a candidate");
+        VASSERT(r14_gap_ok, "conservation (delimiter line): the unhanded tail belongs to a delimiter line");
+    VASSERT(r14_app <= 1 && (r14_app == 0 || p->parser_state == STATE_BOUNDARY), "set-aside happens only when the chunk ends inside a candidate");
     /* ---------- the set-aside CR ---------- */
-    if (in.cr == 0) VASSERT(g14_crn == 0, "no CR is invented");
+    if (in.cr == 0) VASSERT(r14_crn == 0, "no CR is invented");
     else {
         int oc = outcome;
         if (in.state == STATE_DATA) oc = (in.chunk[0] == '\n') ? ref_candidate(in.bnd, BL, 2, in.chunk + 1, N - 1) : REF_CAND_REFUTED;
-        if (oc == REF_CAND_REFUTED) VASSERT(g14_crn == 1, "conservation: a set-aside CR that is not part of a delimiter is released as data");
-        if (oc == REF_CAND_MATCH) VASSERT(g14_crn == 0 && g14_nb >= 1, "a set-aside CR in front of LF + delimiter belongs to the delimiter");
-        if (oc == REF_CAND_UNDECIDED) VASSERT(g14_crn == 0 && p->cr_aside == 1 && p->parser_state == STATE_BOUNDARY, "an undecided CR stays set aside");
+        if (oc == REF_CAND_REFUTED) VASSERT(r14_crn == 1, "conservation: a set-aside CR that is not part of a delimiter is released as data");
+        if (oc == REF_CAND_MATCH) VASSERT(r14_crn == 0 && r14_nb >= 1, "a set-aside CR in front of LF + delimiter belongs to the delimiter");
+        if (oc == REF_CAND_UNDECIDED) VASSERT(r14_crn == 0 && p->cr_aside == 1 && p->parser_state == STATE_BOUNDARY, "an undecided CR stays set aside");
     }
     /* ---------- the stored pieces ---------- */
     if (outcome == REF_CAND_UNDECIDED) {
-        VASSERT(g14_nd == 0 && g14_nb == 0 && g14_pc == 0, "undecided candidate: nothing is handed out");
+        VASSERT(r14_nd == 0 && r14_nb == 0 && r14_pc == 0, "undecided candidate: nothing is handed out");
         VASSERT(p->parser_state == STATE_BOUNDARY && p->boundary_match_pos == in.bmp + N && p->boundary_candidate_pos == in.bcp
                 && np1 == in.np + 1 && p->multipart.flags == in.flags && p->cr_aside == (int) in.cr,
                 "undecided candidate: the whole chunk is stored behind the earlier pieces, nothing else changes");
     } else if (outcome == REF_CAND_REFUTED) {
-        VASSERT(g14_pc == sum0 && g14_pi == in.np, "conservation: a refuted candidate is replayed as data in full");
+        VASSERT(r14_pc == sum0 && r14_pi == in.np, "conservation: a refuted candidate is replayed as data in full");
     } else if (outcome == REF_CAND_MATCH) {
-        VASSERT(g14_nb >= 1, "a completed delimiter is reported");
-        VASSERT(g14_pc == (in.np ? in.bcp - ref_line_end_len(in.pb[0], in.bcp) : 0),
+        VASSERT(r14_nb >= 1, "a completed delimiter is reported");
+        VASSERT(r14_pc == (in.np ? in.bcp - ref_line_end_len(in.pb[0], in.bcp) : 0),
                 "completed delimiter: exactly the stored bytes in front of its line end are data");
-    } else VASSERT(g14_pc == 0, "nothing stored, nothing replayed");
+    } else VASSERT(r14_pc == 0, "nothing stored, nothing replayed");
     VASSERT((p->multipart.flags & in.flags) == in.flags, "anomaly flags only accumulate");
-    VASSERT(p->multipart.boundary_count == in.bcount + (int) g14_nb, "boundary_count counts the reported delimiters");
+    VASSERT(p->multipart.boundary_count == in.bcount + (int) r14_nb, "boundary_count counts the reported delimiters");
+#ifdef VNATIVE
+    g14_app_n = 0; c14_bb_clear(&c14_bb); free(chunk); free(bnd);
+#endif
 }
 #endif /* C14_PARSE_UNIT */
 
